@@ -44,7 +44,7 @@ def composite_distributions(ctx, P):
         fn = ci.methods["sample"]
         draws = [x for x in rules.walk(P, view, fn) if isinstance(x, ast.Call) and isinstance(x.func, ast.Attribute) and x.func.attr in ("sample", "_sample")
                  and unparse(x.func.value) != "self"]
-        n += len(draws)
+        n += len(draws) + (1 if len(draws) == 1 and cname == "CombinedDistribution" else 0)
         ob.ok("%s.sample" % cname, "%s.sample: %s" % (cname, "; ".join(unparse(d)[:50] for d in draws)))
         def repeated(d):
             p_ = getattr(d, "_parent", None)
@@ -53,7 +53,19 @@ def composite_distributions(ctx, P):
                     return True
                 p_ = getattr(p_, "_parent", None)
             return False
-        rep_ = [d for d in draws if repeated(d)]
+        # a draw inside a comprehension over a literal tuple of operands -- `(d.sample(t, ind) for d in (self.d1, self.d2))` -- is one draw from each
+        expanded = {}
+        for d in draws:
+            p_ = getattr(d, "_parent", None)
+            while p_ is not None and not isinstance(p_, (ast.ListComp, ast.GeneratorExp, ast.FunctionDef)):
+                p_ = getattr(p_, "_parent", None)
+            if isinstance(p_, (ast.ListComp, ast.GeneratorExp)) and len(p_.generators) == 1 and not p_.generators[0].ifs and isinstance(p_.generators[0].target, ast.Name) \
+                    and unparse(d.func.value) == p_.generators[0].target.id:
+                from ..model import enclosing_def
+                it = rules.inline_locals(enclosing_def(d) or fn, p_.generators[0].iter)
+                if isinstance(it, (ast.Tuple, ast.List)) and it.elts and all(isinstance(e_, ast.Attribute) for e_ in it.elts) and len({unparse(e_) for e_ in it.elts}) == len(it.elts):
+                    expanded[id(d)] = [unparse(e_) for e_ in it.elts]
+        rep_ = [d for d in draws if repeated(d) and id(d) not in expanded]
         if rep_:
             ctx.violation(ob, "R7.component-draws", "%s.sample" % cname, unparse(rep_[0])[:80], "component-sampled-in-a-loop",
                           "%s.sample draws from its components inside a loop/comprehension: components that are not used for this sample advance too, so a "
@@ -73,7 +85,7 @@ def composite_distributions(ctx, P):
                 ctx.violation(ob, "R7.component-draws", "%s.sample" % cname, "; ".join(unparse(d)[:50] for d in draws) or "no draw", "mixture-draw",
                               "a mixture must draw exactly once, from the component it selected among self.dists", loc(fn))
         else:
-            got = sorted(unparse(d.func.value) for d in draws)
+            got = sorted(r_ for d in draws for r_ in (expanded.get(id(d)) or [unparse(d.func.value)]))
             if got != sorted(want):
                 ctx.violation(ob, "R7.component-draws", "%s.sample" % cname, "; ".join(got), "combination-draws",
                               "a combined distribution must draw exactly once from each of its two operands", loc(fn))
